@@ -344,3 +344,199 @@ Example C04_repwrap_nonvacuous :
   | _, _ => False
   end.
 Proof. vm_compute. repeat split; reflexivity. Qed.
+
+(* ====================================================================================================================== *)
+(* Gap closing against the property text (clause table: Proofs/C04GapA.v)                                                 *)
+(* ====================================================================================================================== *)
+From BP Require Import Model.C04GapDef Proofs.C04GapA Proofs.C04GapB.
+From BP Require Model.C01Def Proofs.C07InvP.
+From BP Require Import Model.Decode.
+
+(* ---- "for both key casings ... via both the dict and the JSON-text path, via both the classmethod and the instance form":
+        the eight read-backs do not merely each give SOME message == m: they all give the SAME object, gnorm_obj incl sc m ---- *)
+Theorem C04_rt_result_unique : forall sc cs1 cs2 incl (t1 t2 : bool) m,
+  wfx_schema sc = true -> keys_ok cs1 sc = true -> keys_ok cs2 sc = true -> goodx sc m = true -> reach_ok incl sc m = true ->
+  from_dict_cls sc (ocls m) (tr t1 (to_dict cs1 incl sc m)) = Ok (gnorm_obj incl sc m) /\
+  from_dict_inst sc (new sc (ocls m)) (tr t1 (to_dict cs1 incl sc m)) = Ok (gnorm_obj incl sc m) /\
+  from_dict_cls sc (ocls m) (tr t2 (to_dict cs2 incl sc m)) = Ok (gnorm_obj incl sc m) /\
+  from_dict_inst sc (new sc (ocls m)) (tr t2 (to_dict cs2 incl sc m)) = Ok (gnorm_obj incl sc m).
+Proof. exact rt_result_unique. Qed.
+Print Assumptions C04_rt_result_unique.
+
+Theorem C04_text_result_unique : forall sc cs1 cs2 incl m,
+  wfx_schema sc = true -> keys_ok cs1 sc = true -> keys_ok cs2 sc = true -> goodx sc m = true -> reach_ok incl sc m = true ->
+  json_rt_cls cs1 incl sc m = Ok (gnorm_obj incl sc m) /\
+  json_rt_inst cs2 incl sc m (new sc (ocls m)) = Ok (gnorm_obj incl sc m) /\
+  from_dict_cls sc (ocls m) (to_dict cs2 incl sc m) = Ok (gnorm_obj incl sc m).
+Proof. exact text_result_unique. Qed.
+Print Assumptions C04_text_result_unique.
+
+(* ---- unknown fields (C08), the exact form of C04_unknown_fields_refuted: for EVERY m whose visible part strip_unk m is
+        inside the scope, the rebuilt message is == m and bytes(m) = bytes(m') ++ the unknown bytes of m: the unknown bytes
+        are lost and nothing else is.  (top level only: unknown bytes inside a nested message stay excluded) ---- *)
+Theorem C04_rt_unknown_exact : forall sc cs incl (text : bool) m,
+  wfx_schema sc = true -> keys_ok cs sc = true -> goodx sc (strip_unk m) = true -> incl_ok incl sc (strip_unk m) = true ->
+  exists m', from_dict_cls sc (ocls m) (tr text (to_dict cs incl sc m)) = Ok m' /\
+             from_dict_inst sc (new sc (ocls m)) (tr text (to_dict cs incl sc m)) = Ok m' /\
+             obj_eq sc m' m = true /\
+             enc_obj sc m = match enc_obj sc m' with Ok b => Ok (b ++ ounk m) | Err e => Err e end.
+Proof. exact rt_unknown_exact. Qed.
+Print Assumptions C04_rt_unknown_exact.
+
+(* ---- composition with C01: the rebuilt message has the bytes of m and those bytes parse to the decoded form of m ---- *)
+Theorem C04_rt_then_binary : forall sc cs incl (text : bool) m,
+  C01Def.c01_schema_ok sc = true -> C01Def.c01_value_ok sc m = true ->
+  keys_ok cs sc = true -> goodx sc m = true -> incl_ok incl sc m = true ->
+  exists m' bs, from_dict_cls sc (ocls m) (tr text (to_dict cs incl sc m)) = Ok m' /\
+                from_dict_inst sc (new sc (ocls m)) (tr text (to_dict cs incl sc m)) = Ok m' /\
+                obj_eq sc m' m = true /\ enc_obj sc m' = Ok bs /\ enc_obj sc m = Ok bs /\
+                (Zlength bs < 2 ^ 64 -> parse sc (ocls m) bs = Ok (C01Def.norm_obj sc m)).
+Proof. exact rt_then_binary. Qed.
+Print Assumptions C04_rt_then_binary.
+
+(* ---- "default-valued oneof members": the SELECTION survives (Message.__eq__ does not compare _group_current): every member
+        k of every group is selected in the rebuilt message iff it is selected in m ---- *)
+Theorem C04_rt_keeps_selection : forall sc cs (text : bool) m,
+  wf_schema sc = true -> keys_ok cs sc = true -> good sc m = true ->
+  exists m', from_dict_cls sc (ocls m) (tr text (to_dict cs false sc m)) = Ok m' /\
+             from_dict_inst sc (new sc (ocls m)) (tr text (to_dict cs false sc m)) = Ok m' /\
+             forall k f, nth_error (cfields (get_class sc (ocls m))) k = Some f ->
+               group_selects (ocur m') f k = group_selects (ocur m) f k.
+Proof. exact rt_keeps_selection. Qed.
+Print Assumptions C04_rt_keeps_selection.
+
+(* ---- composition with C07: whatever from_dict builds from to_dict(m) satisfies the oneof invariant (no hypothesis) ---- *)
+Theorem C04_rt_inv : forall sc cs incl (text : bool) m m',
+  from_dict_cls sc (ocls m) (tr text (to_dict cs incl sc m)) = Ok m' -> C07InvP.Inv sc m'.
+Proof. exact rt_inv. Qed.
+Print Assumptions C04_rt_inv.
+
+(* ---- exactness of the hypotheses: without keys_ok (two names with one key) a field is lost, under both casings ---- *)
+Theorem C04_keys_ok_refuted :
+  wf_schema k_sc = true /\ good k_sc k_m = true /\ keys_ok CAMEL k_sc = false /\ keys_ok SNAKE k_sc = false /\
+  to_dict CAMEL false k_sc k_m = JObj [(JStr [x78], JInt 4)] /\
+  match rt_class CAMEL false k_sc k_m, rt_class SNAKE false k_sc k_m with
+  | Ok m1, Ok m2 => obj_eq k_sc m1 k_m = false /\ obj_eq k_sc m2 k_m = false /\
+                    bytes_differ (enc_obj k_sc m1) (enc_obj k_sc k_m) = true
+  | _, _ => False
+  end.
+Proof. exact keys_ok_refuted. Qed.
+Print Assumptions C04_keys_ok_refuted.
+
+(* ... and without it the result depends on the casing (C04_rt_result_unique fails): names a_b / aB *)
+Theorem C04_keys_ok_casing_refuted :
+  wf_schema k2_sc = true /\ good k2_sc k_m = true /\ keys_ok CAMEL k2_sc = false /\ keys_ok SNAKE k2_sc = false /\
+  rt_class CAMEL false k2_sc k_m = Ok (Obj 11 [PPlaceholder; PInt 4] true [] []) /\
+  rt_class SNAKE false k2_sc k_m = Ok (Obj 11 [PInt 4; PPlaceholder] true [] []).
+Proof. exact keys_ok_casing_refuted. Qed.
+Print Assumptions C04_keys_ok_casing_refuted.
+
+(* without oneof_ok: two members of one group hold a value *)
+Theorem C04_oneof_ok_refuted :
+  schema_ok ex_sc = true /\ in_range ex_sc wit_two_members = true /\ dicts_ok ex_sc wit_two_members = true /\
+  json_supported ex_sc wit_two_members = true /\ oneof_ok ex_sc wit_two_members = false /\
+  match rt_class CAMEL false ex_sc wit_two_members with
+  | Ok m' => obj_eq ex_sc m' wit_two_members = false /\ enc_obj ex_sc m' = enc_obj ex_sc wit_two_members
+  | Err _ => False
+  end.
+Proof. exact oneof_ok_refuted. Qed.
+Print Assumptions C04_oneof_ok_refuted.
+
+(* without dicts_ok (a state of the MODEL only: a Python dict has no repeated key) *)
+Theorem C04_dicts_ok_refuted :
+  schema_ok ex_sc = true /\ in_range ex_sc wit_dup_key = true /\ oneof_ok ex_sc wit_dup_key = true /\
+  json_supported ex_sc wit_dup_key = true /\ dicts_ok ex_sc wit_dup_key = false /\
+  match rt_class CAMEL false ex_sc wit_dup_key with
+  | Ok m' => obj_eq ex_sc m' wit_dup_key = false
+  | Err _ => False
+  end.
+Proof. exact dicts_ok_refuted. Qed.
+Print Assumptions C04_dicts_ok_refuted.
+
+(* ---- "the instance form of from_dict": on a FRESH instance only.  Cls(s="a").from_dict(Cls(x=3).to_dict()) keeps s ---- *)
+Theorem C04_inst_stale_refuted :
+  schema_ok ex_sc = true /\ good ex_sc (with_x 3 true []) = true /\ ocls stale_inst = ocls (with_x 3 true []) /\
+  in_range ex_sc stale_inst = true /\
+  match from_dict_inst ex_sc stale_inst (to_dict CAMEL false ex_sc (with_x 3 true [])) with
+  | Ok m' => obj_eq ex_sc m' (with_x 3 true []) = false /\
+             enc_obj ex_sc m' = Ok [x08; x03; x12; x01; x61] /\ enc_obj ex_sc (with_x 3 true []) = Ok [x08; x03]
+  | Err _ => False
+  end.
+Proof. exact inst_stale_refuted. Qed.
+Print Assumptions C04_inst_stale_refuted.
+
+(* ---- non-vacuity of the gap-closing theorems ---- *)
+Example C04_gap_hypotheses_satisfiable :
+  wfx_schema ex_sc = true /\ keys_ok CAMEL ex_sc = true /\ keys_ok SNAKE ex_sc = true /\ goodx ex_sc ex_m = true /\
+  reach_ok false ex_sc ex_m = true /\
+  wfx_schema exi_sc = true /\ goodx exi_sc exi_m = true /\ reach_ok true exi_sc exi_m = true /\ incl_ok true exi_sc exi_m = true.
+Proof. exact gap_hyps_ex. Qed.
+
+Example C04_gap_unknown_nonvacuous :
+  goodx ex_sc (strip_unk wit_unknown) = true /\ incl_ok false ex_sc (strip_unk wit_unknown) = true /\
+  ounk wit_unknown = [x98; x06; x01] /\ goodx ex_sc wit_unknown = false /\
+  match rt_class CAMEL false ex_sc wit_unknown with
+  | Ok m' => enc_obj ex_sc m' = Ok [x08; x03] /\ enc_obj ex_sc wit_unknown = Ok ([x08; x03] ++ [x98; x06; x01])
+  | Err _ => False
+  end.
+Proof. exact gap_unknown_ex. Qed.
+
+Example C04_gap_binary_nonvacuous :
+  C01Def.c01_schema_ok ex_sc = true /\ C01Def.c01_value_ok ex_sc ex_m = true /\ goodx ex_sc ex_m = true /\
+  match enc_obj ex_sc ex_m with
+  | Ok bs => (70 <? Zlength bs) = true /\ parse ex_sc 11 bs = Ok (C01Def.norm_obj ex_sc ex_m)
+  | Err _ => False
+  end.
+Proof. exact gap_binary_ex. Qed.
+
+(* ex_m selects the member v of its group, which holds its default b"": the rebuilt message selects it too *)
+Example C04_gap_selection_nonvacuous :
+  group_selects (ocur ex_m) (nth 9 (cfields (get_class ex_sc 11)) (mkF [] 0 TInt32 None None None false (HPlain PyInt) 0)) 9 = Some true /\
+  nth 9 (oraw ex_m) PNone = PBytes [] /\
+  match rt_class SNAKE true ex_sc ex_m with
+  | Ok m' => ocur m' = [Some 9%nat]
+  | Err _ => False
+  end.
+Proof. exact gap_selection_ex. Qed.
+
+(* ---- "for all message values": the objects the public API produces (Proofs/C04GapC.v).  For the final object of ANY history of
+        operations from Cls() (constructor, setattr, nested assignment, reads, from_dict, copies, pickle, parse of clean bytes)
+        under C01's decidable conditions on the operations, in_range and no_unknown (two conjuncts of good, at every depth) are
+        DERIVED from C01_reachable_value_ok_parse.  oneof_ok, dicts_ok, no_lazy, nan_ok remain hypotheses (why: header of
+        Proofs/C04GapC.v).  The conclusion is that of C04_rt_then_binary. ---- *)
+From BP Require Import Proofs.C04GapC.
+From BP Require Model.C01Reach Model.C01Parse Model.C07Ops.
+
+Theorem C04_value_ok_gives : forall sc m, C01Def.c01_value_ok sc m = true -> in_range sc m = true /\ no_unknown m = true.
+Proof. exact value_ok_gives. Qed.
+Print Assumptions C04_value_ok_gives.
+
+Theorem C04_rt_reachable : forall sc cs incl (text : bool) c ops m,
+  C01Def.c01_schema_ok sc = true ->
+  C01Reach.hist_ok C01Parse.op_value_ok_p sc (new sc c) ops = true -> C07Ops.run7 sc (new sc c) ops = Ok m ->
+  keys_ok cs sc = true ->
+  oneof_ok sc m = true -> dicts_ok sc m = true -> no_lazy sc m = true -> nan_ok m = true -> incl_ok incl sc m = true ->
+  exists m' bs, from_dict_cls sc (ocls m) (tr text (to_dict cs incl sc m)) = Ok m' /\
+                from_dict_inst sc (new sc (ocls m)) (tr text (to_dict cs incl sc m)) = Ok m' /\
+                obj_eq sc m' m = true /\ enc_obj sc m' = Ok bs /\ enc_obj sc m = Ok bs /\
+                (Zlength bs < 2 ^ 64 -> parse sc (ocls m) bs = Ok (C01Def.norm_obj sc m)).
+Proof. exact rt_reachable. Qed.
+Print Assumptions C04_rt_reachable.
+
+Theorem C04_dumps_reachable : forall sc cs c ops m,
+  C01Def.c01_schema_ok sc = true ->
+  C01Reach.hist_ok C01Parse.op_value_ok_p sc (new sc c) ops = true -> C07Ops.run7 sc (new sc c) ops = Ok m ->
+  oneof_ok sc m = true -> dumpsable (to_dict cs false sc m) = true.
+Proof. exact dumps_reachable. Qed.
+Print Assumptions C04_dumps_reachable.
+
+Example C04_reachable_nonvacuous :
+  C01Def.c01_schema_ok ex_sc = true /\ keys_ok CAMEL ex_sc = true /\ keys_ok SNAKE ex_sc = true /\
+  C01Reach.hist_ok C01Parse.op_value_ok_p ex_sc (new ex_sc 11) reach_hist = true /\
+  match C07Ops.run7 ex_sc (new ex_sc 11) reach_hist with
+  | Ok m => oneof_ok ex_sc m = true /\ dicts_ok ex_sc m = true /\ no_lazy ex_sc m = true /\
+            nan_ok m = true /\ incl_ok false ex_sc m = true /\ ocur m = [Some 9%nat] /\
+            match enc_obj ex_sc m with Ok bs => (20 <? Zlength bs) = true | Err _ => False end
+  | Err _ => False
+  end.
+Proof. exact reach_ex. Qed.
